@@ -722,7 +722,9 @@ func c04Hunt(c *hx.Ctx, r *hx.RNG) {
 
 // genLiteralish produces number-like strings: valid literals in all bases and token-level mutations of them.
 func genLiteralish(r *hx.RNG) string {
-	toks := []string{"0", "1", "7", "9", "a", "f", "_", ".", "e", "E", "p", "P", "x", "X", "b", "B", "o", "O", "+", "-", "Inf", "inf", "0x", "0b", "0o", "e+", "p-", "e-", "00", "99999999999999999999", "2147483647", "2147483648", "9223372036854775807", "9223372036854775808", " ", "\x00", "\xff", "é"}
+	toks := []string{"0", "1", "7", "9", "a", "f", "_", ".", "e", "E", "p", "P", "x", "X", "b", "B", "o", "O", "+", "-", "Inf", "inf", "0x", "0b", "0o", "e+", "p-", "e-", "00", "99999999999999999999", "2147483647", "2147483648", "9223372036854775807", "9223372036854775808", " ", "\x00", "\xff", "é",
+		// runes whose low byte is an ASCII digit, '.', 'e', 'E', '-', '+', '_', 'x': a reader that truncates runes to bytes sees number characters
+		"\u0130", "\u0131", "\u0135", "\u0139", "\u012e", "\u0165", "\u0145", "\u012d", "\u012b", "\u015f", "\u0178", "€"}
 	var b []byte
 	switch r.Intn(4) {
 	case 0: // decimal literal
